@@ -101,7 +101,7 @@ Proof. exact run_parser_tree. Qed.
 (* every text, both entry points: no hang; a panic can only come from the validation pass *)
 Theorem C01_parse_total : forall l,
   match parse_source l with
-  | POk r => tree_kind (pr_tree r) = K_SOURCE_FILE
+  | POk r => tree_kind (pr_tree r) = K_SOURCE_FILE /\ Builder.tree_text (pr_tree r) = l
   | PPanic stage _ => stage = 4%N
   | PNoTree _ => False
   | PHang => False
@@ -109,7 +109,7 @@ Theorem C01_parse_total : forall l,
 Proof. exact parse_source_total. Qed.
 Theorem C01_parse_check_lex_total : forall l,
   match parse_check_lex l with
-  | POk r => tree_kind (pr_tree r) = K_SOURCE_FILE
+  | POk r => tree_kind (pr_tree r) = K_SOURCE_FILE /\ Builder.tree_text (pr_tree r) = l
   | PPanic stage _ => stage = 4%N
   | PNoTree _ => True
   | PHang => False
